@@ -349,7 +349,8 @@ def gen_value(r, ftype, depth=0, none_chance=12):
             return ["ip", r.choice(["0.0.0.0", "255.255.255.255", "127.0.0.1", "10.0.0.1"])]
         if w < 9:
             return ["ip", ":".join("%x" % r.randint(0, 65535) for _ in range(8))]
-        return ["ip", r.choice(["2001:db8::1", "fe80::1", "ffff:ffff:ffff:ffff:ffff:ffff:ffff:ffff", "1::", "::1:0:0"])]
+        return ["ip", r.choice(["2001:db8::1", "fe80::1", "ffff:ffff:ffff:ffff:ffff:ffff:ffff:ffff", "1::", "::1:0:0",
+                                "::1", "::", "::abcd:1234", "::ffff:ffff", "::ffff:1.2.3.4"])]
     if t in ("net.ipnetwork", "net.IPNetwork"):
         return ["ipnet", r.choice(["10.0.0.0/8", "192.168.1.0/24", "0.0.0.0/0", "1.2.3.4/32", "2001:db8::/32", "::/0",
                                    "fe80::/10", "172.16.0.0/12", "::1/128"])]
